@@ -767,7 +767,11 @@ def _gen_chain(g: "_Gen", rng: random.Random, P: dict):
     blk = g.calls(0, 1, 0.2)
     blk.insert(rng.randint(0, len(blk)), g.cond(0))
     g.items.append({"k": "method", "name": host, "ready": g.maybe_inp(0.5), "nx": 0, "block": blk})
-    nlinks = rng.choice([2, 2, 3])
+    _chain_above(g, rng, P, host, [2, 2, 3])
+
+
+def _chain_above(g: "_Gen", rng: random.Random, P: dict, host: str, link_choices: list):
+    nlinks = rng.choice(link_choices)
     cond_links = [rng.random() < 0.45 for _ in range(nlinks)]
     if not any(cond_links) and rng.random() < 0.85:
         cond_links[rng.randrange(nlinks)] = True
@@ -792,7 +796,26 @@ def gen_c13(rng: random.Random, kind: str, P: Optional[dict] = None) -> dict:
     P = {**DEFAULT_P, **(P or {})}
     g = _Gen(rng, P)
     if kind == "free":
-        kind = rng.choice(["connect", "connect", "connect2", "tt", "mm", "tm"])
+        kind = rng.choice(["connect", "connect", "connect2", "tt", "mm", "tm", "nested"])
+    if kind == "nested":
+        # what condition() builds, written by hand: a transaction nested in method M and declared simultaneous
+        # with M (one or two nesting levels, with and without callees); M is reached through a call chain of 1-3
+        # calls with conditional links at any level
+        host = g.mname()
+        n0, n1 = g.tname(), None
+        inner = g.calls(0, 1, 0.0) if rng.random() < 0.5 else []
+        if rng.random() < 0.5:
+            n1 = g.tname()
+            inner.insert(rng.randint(0, len(inner)), {"k": "trans", "name": n1, "ready": g.maybe_inp(0.6),
+                                                      "block": (g.calls(0, 1, 0.0) if rng.random() < 0.5 else [])})
+        blk = g.calls(0, 1, 0.2)
+        blk.insert(rng.randint(0, len(blk)), {"k": "trans", "name": n0, "ready": g.maybe_inp(0.6), "block": inner})
+        g.items.append({"k": "method", "name": host, "ready": g.maybe_inp(0.5), "nx": 0, "block": blk})
+        g.simul.append([host, n0])
+        if n1 is not None:
+            g.simul.append([n0, n1])
+        _chain_above(g, rng, P, host, [1, 2, 2, 3])
+        return g.spec(f"c13:{kind}")
 
     def caller(calls: list, lo=0, hi=2) -> str:
         blk = g.calls(lo, hi, 0.25)
